@@ -485,13 +485,14 @@ def emit_entry(prefix, title, tree, out, index, extra_keys=()):
     out.append("")
     for k in order:
         t = project(tree, lambda lf, k=k: lf.ev.get(k))
-        kind = "mode" if any(e.op in ("mlit", "mvar") for e in [x for x in tree_exprs(t) if x.op in ("mlit", "mvar")]) and \
-            _is_mode_tree(t) else "num"
+        kind = "mode" if _is_mode_tree(t) else "num"
         lines, nums, modes = emit_def("%s_%s" % (prefix, vn[k]), t, vn, kind, "%s: stage `%s`" % (title, k))
         out.extend(lines)
         index.append(("%s_%s" % (prefix, vn[k]), nums, modes))
         # is the store reached on every path that returns normally?  if not: under which decisions
         t = project(tree, lambda lf, k=k: (1 if k in lf.ev else (0 if lf.outcome == "ok" else None)))
+        if t is WILD:
+            raise TraceError("stage %s is stored on no path" % k)
         if t != ("val", 1):
             lines, nums, modes = emit_def("%s_%s_stored" % (prefix, vn[k]), t, vn, "flag",
                                           "%s: is `%s` stored (on the paths that return normally)" % (title, k))
@@ -786,6 +787,58 @@ def _rename(t):
     if t[0] == "err":
         return t
     return ("if", r(t[1]), _rename(t[2]), _rename(t[3]))
+
+
+# ------------------------------------------------------------------ proof obligations (static list)
+# T-C obligations for the property modules: `EQUIV.update(symtrace_sgp4.EQUIV_SGP4)` in props/c01.py, c13.py, c20.py
+# (module -> theorem names; the namespace of the theorems is the module name).
+EQUIV_SGP4 = {
+    'PV.Equiv.Sgp4Init': [
+        'elements_eq_stages', 'basic_eq_stages', 'coeffs_eq_stages', 'oe_excentricity_eq', 'oe_inclination_eq',
+        'oe_right_ascension_eq', 'oe_arg_perigee_eq', 'oe_mean_anomaly_eq', 'oe_mean_motion_eq', 'oe_bstar_eq',
+        'oe_recover_r0_eq', 'oe_recover_r1_eq', 'oe_original_mean_motion_eq', 'oe_semi_major_axis_eq',
+        'oe_period_eq', 'oe_perigee_eq', 'oe_outcome_eq', 'modeCode_simp', 'modeCode_norm', 'deep_code',
+        'init_eo_eq', 'init_xincl_eq', 'init_xno_eq', 'init_bstar_eq', 'init_omegao_eq', 'init_xmo_eq',
+        'init_xnodeo_eq', 'init_xn_0_eq', 'init_cosIO_eq', 'init_sinIO_eq', 'init_theta2_eq', 'init_x3thm1_eq',
+        'init_x1mth2_eq', 'init_x7thm1_eq', 'init_betao2_eq', 'init_betao_eq', 'init_xnodp_stage',
+        'init_aodp_stage', 'init_xnodp_eq', 'init_aodp_eq', 'init_perigee_eq', 'init_apogee_eq',
+        'init_period_eq', 'init_mode_eq', 'init_mode_literal', 'init_s4_eq', 'init_qoms24_eq',
+        'init_s4_literal', 'init_qoms24_literal', 'init_tsi_eq', 'init_eta_eq', 'init_eeta_eq', 'init_coef_eq',
+        'init_c2_eq', 'init_c1_eq', 'init_c4_eq', 'init_c5_1_eq', 'init_c3_1_eq', 'init_omgcof_1_eq',
+        'init_c5_2_eq', 'init_c3_2_eq', 'init_omgcof_2_eq', 'init_c5_2_stored_eq', 'init_omgcof_2_stored_eq',
+        'init_c3_2_stored_eq', 'init_near_norm_stored_eq', 'init_xmdot_eq', 'init_omgdot_eq', 'init_xhdot1_eq',
+        'init_xnodot_eq', 'init_calculate_xmcof_r_eq', 'init_xmcof_eq', 'init_xnodcf_eq', 'init_t2cof_eq',
+        'init_calculate_xlcof_r_eq', 'init_xlcof_eq', 'init_aycof_eq', 'init_cosXMO_eq', 'init_sinXMO_eq',
+        'init_delmo_eq', 'init_d2_eq', 'init_d3_eq', 'init_d4_eq', 'init_t3cof_eq', 'init_t4cof_eq',
+        'init_t5cof_eq', 'init_c5_final', 'init_c3_final', 'init_omgcof_final', 'init_outcome_eq'],
+    'PV.Equiv.Sgp4Prop': [
+        'modeCode_eq_simp', 'modeCode_eq_norm', 'modeCode_ne_zero', 'kep_ts_eq', 'kep_xmp_1_eq', 'kep_xnode_eq',
+        'kep_temp0_1_eq', 'kep_xmp_2_eq', 'kep_omega_eq', 'kep_tempe_eq', 'kep_templ_eq', 'kep_a_eq',
+        'secular_e0', 'kep_calculate_e_r_eq', 'longPeriod_e', 'longPeriod_elsq', 'kep_temp0_2_eq', 'kep_axn_eq',
+        'kep_ayn_eq', 'kep_elsq_eq', 'kep_ecc_eq', 'kep_xlt_eq', 'nr_range_eq', 'nr_passes_eq',
+        'nr_epw_init_eq', 'nr_capu_init_eq', 'nr_first_sinEPW_eq', 'nr_first_cosEPW_eq', 'nr_first_ecosE_eq',
+        'nr_first_esinE_eq', 'nr_first_exit_eq', 'nr_first_next_sinEPW_eq', 'nr_first_next_cosEPW_eq',
+        'nr_first_next_ecosE_eq', 'nr_first_next_esinE_eq', 'nr_later_sinEPW_eq', 'nr_later_cosEPW_eq',
+        'nr_later_ecosE_eq', 'nr_later_esinE_eq', 'nr_later_exit_eq', 'nr_later_next_sinEPW_eq',
+        'nr_later_next_cosEPW_eq', 'nr_later_next_ecosE_eq', 'nr_later_next_esinE_eq', 'newtonLoop_succ',
+        'newtonLoop_zero', 'newton_eq_loop', 'kep_newton_alias', 'kep_temp0_3_eq', 'kep_betal_eq', 'kep_pl_eq',
+        'kep_r_eq', 'kep_invR_eq', 'kep_u_eq', 'shortPeriod_u', 'kep_sin2u_eq', 'kep_cos2u_eq',
+        'kep_temp0_4_eq', 'kep_temp1_eq', 'kep_temp2_eq', 'kep_rk_eq', 'kep_uk_eq', 'kep_xnodek_eq',
+        'kep_xinc_eq', 'kep_temp0_5_eq', 'kep_rdotk_eq', 'kep_rfdotk_eq', 'kep_collect_radius_eq',
+        'kep_collect_smjaxs_eq', 'kep_collect_ecc_eq', 'kep_collect_argp_eq', 'kep_collect_alias',
+        'kep_out_alias', 'calculate_eq_stages', 'kep_outcome_eq', 'gp_normalized_eq', 'gp_raw_eq',
+        'getPosition_eq'],
+    'PV.Equiv.Sgp4': [
+        'stage_names_pinned'],
+}
+# the guards only (C13): which exception is raised, under which conditions
+EQUIV_SGP4_GUARDS = {
+    'PV.Equiv.Sgp4Init': ['oe_outcome_eq', 'init_outcome_eq', 'init_mode_eq', 'init_mode_literal', 'init_perigee_eq',
+                          'init_period_eq', 'init_xnodp_eq', 'init_aodp_eq'],
+    'PV.Equiv.Sgp4Prop': ['kep_outcome_eq', 'calculate_eq_stages', 'kep_a_eq', 'kep_tempe_eq', 'secular_e0', 'kep_axn_eq',
+                          'kep_ayn_eq', 'kep_elsq_eq', 'kep_rk_eq'],
+    'PV.Equiv.Sgp4': ['stage_names_pinned'],
+}
 
 
 if __name__ == "__main__":
